@@ -1,21 +1,12 @@
-"""Oracle for C08: bad objective values (NaN, +/-inf, overflow-sized entries, raised exception) injected at any single
-evaluation (or at all evaluations from some call on) are survived gracefully.  Runs the real dfols.solve, see RULE.
+"""Oracle for C18: trust-region radii and the diagnostic table obey their invariants.  Runs the real dfols.solve with
+logging.save_diagnostic_info=True and checks every row of soln.diagnostic_info, see RULE.
 
-Signatures:
-  C08:raised:<ExcType>:<module.function>   solve raised although the objective only returned bad values; the site is
-                                    the innermost dfols function the exception passed through
-  C08:exception_swallowed           the objective raised but solve returned normally
-  C08:exception_changed             the objective raised but a different exception reached the caller
-  C08:calls_after_exception         the objective was called again after it had raised
-  C08:budget_exceeded               more than maxfun calls
-  C08:eval_outside_bounds / C08:x_outside_bounds     bound guarantee lost under the fault
-  C08:x_not_finite / C08:x_not_evaluated             returned x not finite / not an evaluated point
-  C08:x_not_evaluated:projections   the same in a configuration with projections (returned x is a re-projection)
-  C08:nan_returned                  non-finite objective returned although an earlier evaluation was finite (no averaging)
-  C08:nan_incumbent                 the same with sample averaging
-  C08:worse_than_prefault_best      finite objective returned but larger than the best finite one seen before the fault
-  C08:success_flag_nonfinite_obj:<small_objective|rhoend|max_restarts|noise_level|other>
-                                    success flag attached to a non-finite objective, by the kind of success message
+Signatures (one per clause):
+  C18:rho_nonpositive  C18:delta_lt_rho  C18:rho_lt_rhoend  C18:rho_gt_rhobeg  C18:delta_gt_1e10
+  C18:rho_increased (within a run, growing.reset_rho off)    C18:fk_increased (deterministic objective, within a run)
+  C18:columns  C18:no_table  C18:iters_total_not_consecutive  C18:iter_this_run_not_consecutive
+  C18:nf_decreased  C18:nx_decreased  C18:run_counter_decreased  C18:nf_gt_final  C18:nx_gt_final  C18:run_counter_gt_final
+  C18:npt_out_of_range
 """
 # ======================================================================================================================
 # shared core: problem specs, builders, recording objective wrapper.  This block is duplicated verbatim in
@@ -353,268 +344,268 @@ def merge_counts(dst, src):
             dst[k] = dst.get(k, 0) + v
 # ============================================================ end of shared core ======================================
 
-RULE = ("Cases: a random small least-squares problem (linear / Rosenbrock / mildly nonlinear, n=2..4) in one of the "
-        "configurations plain, bounds, scaled, proj (ball [+halfspace] [+box] projections), soft restarts, hard restarts, "
-        "avg (objfun_has_noise + nsamples 2..3 + additive noise from a private generator), avg with hard restarts, "
-        "regularised, diag (logging.save_diagnostic_info on).  A reference run gives nf; then for k in 1..nf (quick: 1, 2, last initialisation call, first call "
-        "after it, middle, nf-1, nf and one random k) and every fault kind (NaN, +inf, -inf, 1e200 in one or all entries, "
-        "raised exception) solve is re-run with that fault at call k; a few cases keep the fault at every call >= k "
-        "(k=1: all evaluations bad).  A case is non-trivial when the fault was really delivered (call k was reached) and "
-        "either it is a raised exception or some evaluation before call k had a finite objective (so the strongest "
-        "clause - finite result not worse than the pre-fault best - applies).")
+RULE = ("Cases: one call of dfols.solve with logging.save_diagnostic_info=True on a random small least-squares problem "
+        "(linear / Rosenbrock / mildly nonlinear, n=2..4; plain, bounds, scaled, occasionally projections or a "
+        "regulariser) with random radii (rhobeg 1e-3..10, sometimes huge up to 5e9; rhoend 1e-8..1e-2), budgets, "
+        "trust-region parameters inside their documented ranges, regression sets (npt>n+1, extra steps), growing "
+        "settings (growing.ndirs_initial<n, reset_delta / reset_rho, safety options), soft and hard restarts "
+        "(rhoend_scale 0.1..1, increase_npt up to restarts.max_npt), deterministic or noisy objectives with sample "
+        "averaging, optionally save_poisedness / save_xk / save_rk.  Every row of soln.diagnostic_info is checked.  "
+        "A run is non-trivial when its table has at least 3 rows and rho takes at least two different values or the "
+        "run counter changes (so the monotonicity and per-restart clauses are exercised).")
 
-CFGS = ['plain', 'bounds', 'scaled', 'proj', 'soft', 'hard', 'avg', 'avg_hard', 'reg', 'diag']
-KINDS = ['nan', 'pinf', 'ninf', 'big', 'raise']
-XTOL = 1e-8          # 'one of the evaluated points (to rounding)'
-OBJ_RTOL = 1e-12     # slack on 'not larger than the best pre-fault objective'
+DOC_COLUMNS = ['xk', 'rk', 'fk', 'rho', 'delta', 'norm_sk', 'npt', 'interpolation_error', 'interpolation_condition_number',
+               'interpolation_change_J_norm', 'interpolation_total_residual', 'poisedness', 'max_distance_xk', 'norm_gk',
+               'nruns', 'nf', 'nx', 'nsamples', 'iter_this_run', 'iters_total', 'iter_type', 'ratio', 'slow_iter']
+FK_RTOL = 1e-12
 
 
-def make_spec(seed, i, cfg):
-    rng = np.random.default_rng((seed, i, 8))
-    base = {'plain': 'plain', 'bounds': 'bounds', 'scaled': 'scaled', 'proj': 'proj', 'reg': 'reg'}.get(cfg)
-    if base is None:
-        base = str(rng.choice(['plain', 'bounds']))
-    spec = gen_problem(rng, base)
-    spec['cfg'] = cfg
+def make_spec(seed, i, j):
+    rng = np.random.default_rng((seed, i, j, 18))
+    u = rng.random()
+    cfg = 'plain' if u < 0.4 else 'bounds' if u < 0.7 else 'scaled' if u < 0.82 else 'proj' if u < 0.91 else 'reg'
+    mode = str(rng.choice(['basic', 'basic', 'tr_params', 'regression', 'growing', 'soft', 'hard', 'noisy', 'huge_rhobeg']))
+    if mode in ('growing', 'huge_rhobeg') and cfg != 'plain':
+        cfg = 'plain' if mode == 'huge_rhobeg' or cfg in ('proj', 'reg', 'scaled') else cfg
+    spec = gen_problem(rng, cfg)
+    spec['mode'] = mode
     n = spec['n']
-    params = {}
-    spec['maxfun'] = int(rng.choice([12, 25, 40, 60]))
-    spec['rhoend'] = hx(float(rng.choice([1e-8, 1e-5, 1e-3])))
-    if cfg in ('soft', 'hard', 'avg_hard'):
+    heavy = cfg in ('proj', 'reg')
+    params = {'logging.save_diagnostic_info': True, 'logging.save_poisedness': bool(rng.random() < 0.25)}
+    if rng.random() < 0.3:
+        params['logging.save_xk'] = bool(rng.random() < 0.7)
+        params['logging.save_rk'] = bool(rng.random() < 0.7)
+    spec['maxfun'] = int(rng.choice([30, 60, 120])) if not heavy else int(rng.choice([12, 20, 30]))
+    spec['rhoend'] = hx(float(rng.choice([1e-8, 1e-6, 1e-4, 1e-2])))
+    if cfg == 'reg':
+        params['func_tol.max_iters'] = int(rng.choice([30, 60]))
+    if cfg not in ('scaled',) and spec.get('lo') is None and rng.random() < 0.3:
+        spec['rhobeg'] = hx(float(rng.choice([1e-3, 1e-2, 3.0, 10.0])))
+        if float(unhx(spec['rhobeg'])) <= float(unhx(spec['rhoend'])):
+            spec['rhoend'] = hx(1e-6)
+    if mode == 'huge_rhobeg':
+        rb = float(rng.choice([1e3, 1e6, 1e9, 5e9]))
+        spec['rhobeg'] = hx(rb)
+        spec['rhoend'] = hx(float(rng.choice([1e-2, 1.0, 1e3])))
+        if rng.random() < 0.7:                   # start far away on the scale of rhobeg so that delta grows to its cap
+            spec['x0'] = hx(unhx(spec['x0']) + rb * float(rng.choice([10.0, 100.0, 1000.0])) * rng.normal(size=n))
+    if mode == 'tr_params' or rng.random() < 0.2:
+        params['tr_radius.eta1'] = float(rng.choice([0.01, 0.1, 0.3]))
+        params['tr_radius.eta2'] = float(rng.choice([0.5, 0.7, 0.95]))
+        params['tr_radius.gamma_dec'] = float(rng.choice([0.1, 0.5, 0.98]))
+        params['tr_radius.gamma_inc'] = float(rng.choice([1.0, 2.0, 5.0]))
+        params['tr_radius.gamma_inc_overline'] = float(rng.choice([1.0, 4.0, 10.0]))
+        params['tr_radius.alpha1'] = float(rng.choice([0.01, 0.1, 0.9]))
+        params['tr_radius.alpha2'] = float(rng.choice([0.05, 0.5, 0.95]))
+        if rng.random() < 0.5:
+            params['general.safety_step_thresh'] = float(rng.choice([0.1, 0.5, 1.0]))
+    if mode == 'regression' and not heavy:
+        spec['npt'] = n + 1 + int(rng.integers(1, (n + 1) * (n + 2) // 2 - n))      # up to (n+1)(n+2)/2: no random init
+        if rng.random() < 0.6:
+            params['regression.num_extra_steps'] = int(rng.integers(1, 3))
+            if rng.random() < 0.3:
+                params['regression.momentum_extra_steps'] = True
+    if mode == 'growing':
+        params['growing.ndirs_initial'] = int(rng.integers(1, n))
+        if rng.random() < 0.5:
+            params['growing.reset_delta'] = True
+            if rng.random() < 0.5:
+                params['growing.reset_rho'] = True
+        if rng.random() < 0.3:
+            params['growing.num_new_dirns_each_iter'] = 1
+        if rng.random() < 0.3:
+            params['growing.do_geom_steps'] = True
+        if rng.random() < 0.3:
+            params['growing.safety.reduce_delta'] = True
+        elif rng.random() < 0.3:
+            params['growing.safety.full_geom_step'] = True
+        elif rng.random() < 0.2:
+            params['growing.safety.do_safety_step'] = False
+        if rng.random() < 0.3:
+            params['growing.full_rank.use_full_rank_interp'] = False
+            params['growing.perturb_trust_region_step'] = True
+        if rng.random() < 0.3:
+            params['growing.gamma_dec'] = float(rng.choice([0.3, 0.9]))
+    if mode in ('soft', 'hard') or (mode == 'noisy' and rng.random() < 0.5):
         params['restarts.use_restarts'] = True
         params['restarts.max_unsuccessful_restarts'] = int(rng.integers(1, 4))
-        if cfg != 'soft':
+        if mode == 'hard' or (mode == 'noisy' and rng.random() < 0.4):
             params['restarts.use_soft_restarts'] = False
             if rng.random() < 0.5:
                 params['restarts.hard.use_old_rk'] = False
-        if rng.random() < 0.5:
-            params['restarts.rhoend_scale'] = float(rng.choice([0.1, 0.5]))
-        spec['rhoend'] = hx(float(rng.choice([1e-3, 1e-2])))      # make restarts happen within the budget
-        spec['maxfun'] = int(rng.choice([40, 60, 80]))
-    if cfg in ('avg', 'avg_hard'):
+        else:
+            if rng.random() < 0.3:
+                params['restarts.soft.move_xk'] = False
+            if rng.random() < 0.3:
+                params['restarts.soft.num_geom_steps'] = int(rng.integers(1, 4))
+        if rng.random() < 0.7:
+            params['restarts.rhoend_scale'] = float(rng.choice([0.1, 0.5, 0.9]))
+        if rng.random() < 0.3 and not heavy:
+            params['restarts.increase_npt'] = True
+            params['restarts.increase_npt_amt'] = int(rng.integers(1, 3))
+            params['restarts.max_npt'] = max(spec.get('npt') or n + 1,
+                                             min((spec.get('npt') or n + 1) + int(rng.integers(1, 4)), (n + 1) * (n + 2) // 2))
+            if params.get('restarts.use_soft_restarts', True) is False and rng.random() < 0.8:
+                # as the user guide recommends: no growing phase after a hard restart with more points
+                params['restarts.hard.increase_ndirs_initial_amt'] = params['restarts.increase_npt_amt']
+        if mode != 'noisy':
+            spec['rhoend'] = hx(float(rng.choice([1e-4, 1e-3, 1e-2])))
+            if spec.get('rhobeg') is not None and float(unhx(spec['rhobeg'])) <= float(unhx(spec['rhoend'])):
+                spec['rhobeg'] = hx(0.1)
+    if mode == 'noisy':
         spec['has_noise'] = True
-        spec['nsamples'] = int(rng.integers(2, 4))
-        spec['noise'] = hx(float(rng.choice([1e-3, 1e-2])))
+        spec['noise'] = hx(float(rng.choice([1e-4, 1e-2])))
         spec['noise_seed'] = int(rng.integers(0, 2 ** 31 - 1))
-        spec['maxfun'] = int(rng.choice([30, 50, 80]))
-        if cfg == 'avg':
-            params['restarts.max_unsuccessful_restarts'] = int(rng.integers(1, 4))
-    if cfg == 'reg':                              # S-FISTA / Dykstra loops are slow in pure Python: keep these small
-        spec['maxfun'] = int(rng.choice([8, 12, 16]))
-        params['func_tol.max_iters'] = int(rng.choice([30, 60]))
-    if cfg == 'proj':
-        spec['maxfun'] = int(rng.choice([8, 12, 16]))
-    if cfg == 'diag':                             # same as plain/bounds but with the diagnostic table switched on
-        params['logging.save_diagnostic_info'] = True
-        params['logging.save_poisedness'] = bool(rng.random() < 0.5)
-        if rng.random() < 0.4:
-            params['logging.save_xk'] = True
-            params['logging.save_rk'] = True
-    if cfg in ('plain', 'bounds', 'diag') and rng.random() < 0.3:
-        spec['npt'] = n + 1 + int(rng.integers(1, n + 1))          # regression set
+        ns = int(rng.integers(1, 4))
+        if ns > 1:
+            spec['nsamples'] = ns
+    elif rng.random() < 0.1:
+        spec['nsamples'] = int(rng.integers(2, 4))            # averaging of a deterministic objective
     spec['params'] = enc_params(params)
     return fix_radii(spec)
 
 
-HEAVY = ('proj', 'reg')
-
-
 def tasks(seed, tier):
-    """one problem per (rep, cfg); its fault list is split over `parts` tasks so that no task runs for long"""
-    reps = 5 if tier == 'quick' else 16
-    out = []
-    i = 0
-    for rep in range(reps):
-        for cfg in CFGS:
-            if tier == 'quick':
-                parts = 3 if cfg in HEAVY else 1
-            else:
-                parts = 12 if cfg in HEAVY else 3
-            for p in range(parts):
-                out.append(dict(seed=int(seed), i=i, cfg=cfg, tier=tier, part=p, parts=parts))
-            i += 1
-    return out
+    ntasks, per = (48, 10) if tier == 'quick' else (320, 30)
+    return [dict(seed=int(seed), i=i, count=per, tier=tier) for i in range(ntasks)]
 
 
-def _in_bounds(P, x):
-    ok = True
-    if P.lo is not None:
-        ok = ok and bool(np.all(x >= P.lo))
-    if P.hi is not None:
-        ok = ok and bool(np.all(x <= P.hi))
-    return ok
-
-
-def success_class(msg):
-    for key, name in (('sufficiently small', 'small_objective'), ('rhoend', 'rhoend'), ('unsuccessful restarts', 'max_restarts'),
-                      ('noise level', 'noise_level')):
-        if key in msg:
-            return name
-    return 'other'
-
-
-def raise_site(exc):
-    """innermost dfols frame the exception passed through, as 'module.function'"""
-    import traceback
-    site = 'outside_dfols'
-    for fr in traceback.extract_tb(exc.__traceback__):
-        d, f = os.path.split(fr.filename)
-        if os.path.basename(d) == 'dfols':
-            site = '%s.%s' % (f[:-3] if f.endswith('.py') else f, fr.name)
-    return site
-
-
-def check_case(spec, fault):
-    """run one faulted case; returns (violations, info)"""
-    P = build(spec, fault)
+def check_run(spec):
+    P = build(spec)
     soln, exc = run_solve(P)
-    rec = P.rec
-    k, kind, which, persist = fault
-    data = dict(spec=spec, fault=list(fault))
     V = []
+    info = dict(exit=None, nontrivial=False, rows=0, mode=spec['mode'], cfg=spec['cfg'], iter_types={})
 
     def viol(sig, what, **extra):
-        d = dict(data)
-        d['expect'] = sig
+        if any(v['signature'] == sig for v in V):
+            return                                  # one report per clause and run
+        d = dict(spec=spec, expect=sig, result=result_summary(soln))
         d.update(extra)
         V.append(dict(signature=sig, what=what, data=d))
 
-    info = dict(delivered=rec.delivered_at is not None, nontrivial=False, flag=None, msg=None)
-    if rec.delivered_at is None:
-        return V, info                      # the run ended before call k (possible only if the solver is not deterministic)
-    prefault = [rec.obj(j) for j in range(min(k - 1, len(rec.rs)))]
-    finite_before = [v for v in prefault if math.isfinite(v)]
-    averaging = spec.get('nsamples', 1) != 1
-
-    if kind == 'raise':
-        info['nontrivial'] = True
-        if exc is None:
-            viol('C08:exception_swallowed', 'objective raised at call %d but solve returned flag %s (%s)'
-                 % (rec.delivered_at, soln.flag, soln.msg), result=result_summary(soln))
-        elif exc is not rec.exc:
-            viol('C08:exception_changed', 'objective raised FaultError at call %d but solve raised %s: %s'
-                 % (rec.delivered_at, type(exc).__name__, exc))
-        if rec.calls_after_exc > 0:
-            viol('C08:calls_after_exception', '%d further objective calls after the exception raised at call %d'
-                 % (rec.calls_after_exc, rec.delivered_at))
-        info['flag'] = 'raised'
-        return V, info
-
-    info['nontrivial'] = len(finite_before) > 0
     if exc is not None:
-        site = raise_site(exc)
-        viol('C08:raised:%s:%s' % (type(exc).__name__, site), 'fault %s at call %d%s made solve raise %s: %s (raised through %s)'
-             % (kind, k, ' on' if persist else '', type(exc).__name__, str(exc)[:200], site))
-        info['flag'] = 'exception:' + type(exc).__name__
+        info['exit'] = 'raised %s' % type(exc).__name__     # raising is judged by C07 / C08
         return V, info
-    info['flag'], info['msg'] = int(soln.flag), str(soln.msg)
     if soln.flag == soln.EXIT_INPUT_ERROR:
-        raise RuntimeError('oracle C08 generated an invalid input: %s / %r' % (soln.msg, spec))
-    # budget and bounds
-    if rec.ncalls > spec['maxfun']:
-        viol('C08:budget_exceeded', '%d objective calls with maxfun=%d' % (rec.ncalls, spec['maxfun']))
-    for j, xj in enumerate(rec.xs):
-        if not _in_bounds(P, xj):
-            viol('C08:eval_outside_bounds', 'call %d evaluated outside the bounds' % (j + 1), call=j + 1, x=hx(xj))
-            break
-    x = np.asarray(soln.x, dtype=float)
-    if not np.all(np.isfinite(x)):
-        viol('C08:x_not_finite', 'returned x is not finite: %s' % x, result=result_summary(soln))
-    else:
-        if not _in_bounds(P, x):
-            viol('C08:x_outside_bounds', 'returned x violates the bounds', result=result_summary(soln))
-        dist = min(float(np.max(np.abs(x - xj) / (1.0 + np.abs(xj)))) for xj in rec.xs)
-        if not dist <= XTOL:
-            # with projections the solver re-runs Dykstra on the stored point when it reports it: own class
-            viol('C08:x_not_evaluated:projections' if P.projections else 'C08:x_not_evaluated', 'returned x is not one of the %d evaluated points (closest differs by %.3g)'
-                 % (len(rec.xs), dist), result=result_summary(soln))
-    obj = float(soln.obj)
-    if soln.flag == soln.EXIT_SUCCESS and not math.isfinite(obj):
-        viol('C08:success_flag_nonfinite_obj:' + success_class(soln.msg), 'success flag (%s) with objective %r after fault '
-             '%s from call %d%s' % (soln.msg, obj, kind, k, ' on' if persist else ' only'), result=result_summary(soln))
-    if finite_before:
-        best = min(finite_before)
-        if not math.isfinite(obj):
-            sig = 'C08:nan_incumbent' if averaging else 'C08:nan_returned'
-            viol(sig, 'fault %s at call %d: returned objective %r although %d earlier evaluations were finite (best %.6g); '
-                 'flag %d (%s)' % (kind, k, obj, len(finite_before), best, soln.flag, soln.msg),
-                 result=result_summary(soln))
-        elif not averaging and obj > best + OBJ_RTOL * abs(best):
-            viol('C08:worse_than_prefault_best', 'fault %s at call %d: returned objective %.17g > best finite objective '
-                 '%.17g seen before the fault; flag %d (%s)' % (kind, k, obj, best, soln.flag, soln.msg),
-                 result=result_summary(soln), best=hx(best))
+        raise RuntimeError('oracle C18 generated an invalid input: %s / %r' % (soln.msg, spec))
+    info['exit'] = '%d %s' % (soln.flag, soln.msg)
+    up = P.user_params
+    df = soln.diagnostic_info
+    if df is None:
+        viol('C18:no_table', 'logging.save_diagnostic_info=True but soln.diagnostic_info is None')
+        return V, info
+    # documented columns
+    cols = list(df.columns)
+    want = [c for c in DOC_COLUMNS if not (c == 'xk' and not up.get('logging.save_xk', False))
+            and not (c == 'rk' and not up.get('logging.save_rk', False))]
+    missing = [c for c in want if c not in cols]
+    extra = [c for c in cols if c not in want]
+    if missing or extra:
+        viol('C18:columns', 'diagnostic table columns differ from the documented ones: missing %s, unexpected %s' % (missing, extra))
+        if missing:
+            return V, info
+    N = len(df)
+    info['rows'] = N
+    if N == 0:
+        return V, info
+    rho = df['rho'].to_numpy(dtype=float)
+    delta = df['delta'].to_numpy(dtype=float)
+    fk = df['fk'].to_numpy(dtype=float)
+    run = df['nruns'].to_numpy()
+    nf = df['nf'].to_numpy()
+    nx = df['nx'].to_numpy()
+    npt = df['npt'].to_numpy()
+    it_run = df['iter_this_run'].to_numpy()
+    it_tot = df['iters_total'].to_numpy()
+    for t in df['iter_type']:
+        bump(info['iter_types'], str(t))
+    rhobeg = P.rhobeg_eff
+    scale = up.get('restarts.rhoend_scale', 1.0)
+    rhoend_of_run = {}
+    r = P.rhoend
+    for q in range(int(max(int(run.max()), int(soln.nruns) - 1)) + 1):
+        rhoend_of_run[q] = r
+        r = scale * r
+    reset_rho = bool(up.get('growing.reset_rho', False))
+    deterministic = spec.get('noise') is None
+    npt_max = max(P.npt_eff, up.get('restarts.max_npt', P.npt_eff)) if up.get('restarts.increase_npt', False) else P.npt_eff
+    for t in range(N):
+        row = dict(row=t, run=int(run[t]), rho=hx(rho[t]), delta=hx(delta[t]))
+        if not rho[t] > 0.0:
+            viol('C18:rho_nonpositive', 'row %d: rho = %r' % (t, rho[t]), **row)
+        if not delta[t] >= rho[t]:
+            viol('C18:delta_lt_rho', 'row %d: delta = %.17g < rho = %.17g' % (t, delta[t], rho[t]), **row)
+        re = rhoend_of_run[int(run[t])]
+        if not rho[t] >= re:
+            viol('C18:rho_lt_rhoend', 'row %d (run %d): rho = %.17g < rhoend = %.17g (rhoend=%g, scale %g)'
+                 % (t, run[t], rho[t], re, P.rhoend, scale), **row)
+        if not rho[t] <= rhobeg:
+            viol('C18:rho_gt_rhobeg', 'row %d: rho = %.17g > rhobeg = %.17g' % (t, rho[t], rhobeg), **row)
+        if not delta[t] <= 1e10:
+            viol('C18:delta_gt_1e10', 'row %d: delta = %.17g > 1e10' % (t, delta[t]), **row)
+        if not 2 <= npt[t] <= npt_max:
+            viol('C18:npt_out_of_range', 'row %d: npt = %d outside [2, %d]' % (t, npt[t], npt_max), **row)
+        if it_tot[t] != t:
+            viol('C18:iters_total_not_consecutive', 'row %d has iters_total = %d' % (t, it_tot[t]), **row)
+        if nf[t] > soln.nf:
+            viol('C18:nf_gt_final', 'row %d: nf = %d > soln.nf = %d' % (t, nf[t], soln.nf), **row)
+        if nx[t] > soln.nx:
+            viol('C18:nx_gt_final', 'row %d: nx = %d > soln.nx = %d' % (t, nx[t], soln.nx), **row)
+        if run[t] > soln.nruns - 1:
+            viol('C18:run_counter_gt_final', 'row %d: run counter %d but soln.nruns = %d' % (t, run[t], soln.nruns), **row)
+        if t == 0:
+            if it_run[t] != 0:
+                viol('C18:iter_this_run_not_consecutive', 'first row has iter_this_run = %d' % it_run[t], **row)
+            continue
+        if nf[t] < nf[t - 1]:
+            viol('C18:nf_decreased', 'row %d: nf %d -> %d' % (t, nf[t - 1], nf[t]), **row)
+        if nx[t] < nx[t - 1]:
+            viol('C18:nx_decreased', 'row %d: nx %d -> %d' % (t, nx[t - 1], nx[t]), **row)
+        if run[t] < run[t - 1]:
+            viol('C18:run_counter_decreased', 'row %d: run counter %d -> %d' % (t, run[t - 1], run[t]), **row)
+        if run[t] == run[t - 1]:
+            if it_run[t] != it_run[t - 1] + 1:
+                viol('C18:iter_this_run_not_consecutive', 'row %d: iter_this_run %d -> %d within run %d'
+                     % (t, it_run[t - 1], it_run[t], run[t]), **row)
+            if rho[t] > rho[t - 1] and not reset_rho:
+                viol('C18:rho_increased', 'row %d (run %d): rho %.17g -> %.17g without growing.reset_rho'
+                     % (t, run[t], rho[t - 1], rho[t]), **row)
+            if deterministic and not fk[t] <= fk[t - 1] + FK_RTOL * abs(fk[t - 1]):
+                viol('C18:fk_increased', 'row %d (run %d): recorded best objective %.17g -> %.17g'
+                     % (t, run[t], fk[t - 1], fk[t]), **row)
+        else:
+            if it_run[t] != 0:
+                viol('C18:iter_this_run_not_consecutive', 'row %d: first row of run %d has iter_this_run = %d'
+                     % (t, run[t], it_run[t]), **row)
+    info['nontrivial'] = N >= 3 and (len(set(rho.tolist())) >= 2 or len(set(run.tolist())) >= 2)
     return V, info
 
 
-def choose_faults(spec, nf, rng, tier):
-    n = spec['n']
-    ns = spec.get('nsamples', 1)
-    npt = spec.get('npt') or n + 1
-    init_last = min(nf, npt * ns)
-    if tier == 'quick':
-        ks = {1, 2, init_last, init_last + 1, (init_last + nf) // 2, nf - 1, nf, int(rng.integers(1, nf + 1))}
-        ks = sorted(k for k in ks if 1 <= k <= nf)
-    else:
-        ks = list(range(1, nf + 1))
-    faults = []
-    for k in ks:
-        for kind in KINDS:
-            which = 'one' if rng.random() < 0.5 else 'all'
-            faults.append([k, kind, which, False])
-    # persistent faults: every evaluation from k on is bad (k=1: all of them)
-    pk = [1, min(nf, init_last + 1)] if tier == 'quick' else [1, 2, init_last, min(nf, init_last + 1), (init_last + nf) // 2]
-    for k in sorted(set(pk)):
-        for kind in (KINDS[:4] if tier != 'quick' else [KINDS[int(rng.integers(0, 4))], 'nan']):
-            faults.append([k, kind, 'one' if rng.random() < 0.5 else 'all', True])
-    return faults
-
-
 def run_task(task):
-    seed, i, cfg, tier = task['seed'], task['i'], task['cfg'], task['tier']
-    spec = make_spec(seed, i, cfg)
-    rng = np.random.default_rng((seed, i, 88))
-    stats = {'cfg': {}, 'kind': {}, 'exit_ref': {}, 'exit_faulted': {}, 'phase': {}, 'persist': {}, 'not_delivered': 0}
-    P = build(spec)
-    soln, exc = run_solve(P)
-    if exc is not None:
-        if isinstance(exc, RuntimeError) and 'Unable to generate suitable initial directions' in str(exc):
-            # fault-free behaviour of the projection initialisation (not a C08 matter): nothing to inject into
-            return dict(evaluations=0, nontrivial=0, violations=[], stats={'reference_raised_init_directions': 1}, sample=None)
-        raise RuntimeError('oracle C08: reference run raised %r for %r' % (exc, spec))
-    if soln.flag == soln.EXIT_INPUT_ERROR:
-        raise RuntimeError('oracle C08 generated an invalid input: %s / %r' % (soln.msg, spec))
-    nf = P.rec.ncalls
-    bump(stats['cfg'], cfg)
-    bump(stats['exit_ref'], '%d %s' % (soln.flag, soln.msg))
-    violations, evaluations, nontrivial = [], 0, 0
-    sample = None
-    seen = set()
-    npt = spec.get('npt') or spec['n'] + 1
-    init_last = npt * spec.get('nsamples', 1)
-    for fault in choose_faults(spec, nf, rng, tier)[task.get('part', 0)::task.get('parts', 1)]:
-        V, info = check_case(spec, fault)
+    seed, i = task['seed'], task['i']
+    stats = {'exit': {}, 'mode': {}, 'cfg': {}, 'rows': {}, 'iter_type': {}}
+    violations, evaluations, nontrivial, sample = [], 0, 0, None
+    for j in range(task['count']):
+        spec = make_spec(seed, i, j)
+        V, info = check_run(spec)
         evaluations += 1
-        if not info['delivered']:
-            stats['not_delivered'] += 1
-            continue
         nontrivial += 1 if info['nontrivial'] else 0
-        bump(stats['kind'], fault[1])
-        bump(stats['persist'], 'persist' if fault[3] else 'single')
-        bump(stats['phase'], 'x0' if fault[0] <= spec.get('nsamples', 1) else 'init' if fault[0] <= init_last
-             else 'last' if fault[0] >= nf - 1 else 'main')
-        bump(stats['exit_faulted'], info['flag'] if info['msg'] is None else '%d %s' % (info['flag'], info['msg']))
-        for v in V:
-            if v['signature'] not in seen or len(violations) < 20:
-                violations.append(v)
-            seen.add(v['signature'])
-        if sample is None and info['nontrivial'] and fault[1] != 'raise' and fault[0] > init_last:
-            sample = dict(cfg=cfg, kind=spec['kind'], n=spec['n'], m=spec['m'], maxfun=spec['maxfun'], nf_reference=nf,
-                          fault=fault, exit='%s %s' % (info['flag'], info['msg']))
-    return dict(evaluations=evaluations, nontrivial=nontrivial, violations=violations, stats=stats, sample=sample)
+        bump(stats['exit'], info['exit'])
+        bump(stats['mode'], info['mode'])
+        bump(stats['cfg'], info['cfg'])
+        rows = info['rows']
+        bump(stats['rows'], '0' if rows == 0 else '1-2' if rows < 3 else '3-9' if rows < 10 else '10-29' if rows < 30 else '30+')
+        merge_counts(stats['iter_type'], info['iter_types'])
+        violations.extend(V)
+        if sample is None and info['nontrivial'] and rows >= 10:
+            sample = dict(mode=info['mode'], cfg=info['cfg'], kind=spec['kind'], n=spec['n'], npt=spec.get('npt'),
+                          rhobeg=spec.get('rhobeg'), rhoend=spec['rhoend'], maxfun=spec['maxfun'], params=spec['params'],
+                          rows=rows, exit=info['exit'])
+    return dict(evaluations=evaluations, nontrivial=nontrivial, violations=violations[:40], stats=stats, sample=sample)
 
 
 def replay(data):
-    V, info = check_case(data['spec'], data['fault'])
+    V, info = check_run(data['spec'])
     if not V:
         return None
     for v in V:
